@@ -79,26 +79,26 @@ def basic_render(
 
     lines = []
     start, node = "", ""
-    if sort:
+    if sort is not None:
         verts = sorted(uni.vertices, key=sort)
     else:
         verts = uni.vertices
     for vert in verts:
         line = ""
-        if rfunc:
+        if rfunc is not None:
             start = rfunc(vert)
         else:
             start = repr(vert)
 
         line += f"{start} -> "
 
-        if sort:
+        if sort is not None:
             nbs = sorted(helpers.neighbors(vert), key=sort)
         else:
             nbs = helpers.neighbors(vert)
         nodes = []
         for end in nbs:
-            if rfunc:
+            if rfunc is not None:
                 node = rfunc(end)
             else:
                 node = repr(end)
